@@ -71,6 +71,12 @@ func scenWAPI(c *ctx) {
 			c.rec.Emit(doDeriveWasm(fmt.Sprintf("WAPI/derive/d%d/a%d/%d", d, a, id), c.someKey(), c.someCounter(), d, a))
 		}
 	}
+	// codes with five to seven leading zeros
+	for i, z := range zeroRich {
+		id++
+		c.rec.Emit(doDeriveWasm(fmt.Sprintf("WAPI/derive/zeros/%d", i), zeroRichKey, z.Ctr, z.D, uint8(z.Alg)))
+		c.rec.Emit(doValidateWasm(fmt.Sprintf("WAPI/validate/zeros/%d", i), refHOTP(zeroRichKey, z.Ctr, z.D, z.Alg), zeroRichKey, z.Ctr, uint8(z.D), uint8(z.Alg)))
+	}
 	// in-domain grid and one-argument-differs sequences
 	for i := 0; i < c.n(150, 3000); i++ {
 		key := c.someKey()
